@@ -49,7 +49,7 @@ pub fn run(ctx: &Ctx) {
     chk::<SNew>(ctx, "SNew", i16::dom().into_iter().map(SNew).collect(), &mut n);
     chk::<STup>(ctx, "STup", <(u8, i64, String)>::dom().into_iter().map(|(a, b, c)| STup(a, b, c)).collect(), &mut n);
     chk::<SNamed0>(ctx, "SNamed0", vec![SNamed0 {}], &mut n);
-    let es: Vec<SEnum> = vec![SEnum::A, SEnum::B(-300), SEnum::C(255, i32::MIN), SEnum::D { x: u64::MAX, y: Some(true) }, SEnum::D { x: 0, y: None }, SEnum::F {}, SEnum::G(SNew(7)), SEnum::H(vec![1, 300])];
+    let es: Vec<SEnum> = vec![SEnum::A, SEnum::B(-300), SEnum::C(255, i32::MIN), SEnum::D { x: u64::MAX, y: Some(true) }, SEnum::D { x: 0, y: None }, SEnum::F {}, SEnum::G(SNew(7)), SEnum::H(vec![1, 300]), SEnum::I { only: 300 }, SEnum::J { zeta: 1, alpha: true }, SEnum::J { zeta: 2, alpha: false }];
     chk::<SEnum>(ctx, "SEnum", es.clone(), &mut n);
     chk::<Vec<SEnum>>(ctx, "Vec<SEnum>", vec![vec![], es.clone()], &mut n);
     chk::<SOuter>(
